@@ -169,7 +169,7 @@ def r_dispatch(chk, P, tier):
             break
     chk.expect(first == "is_empty", "empty first", "the first test of from_posix_tz is %s, expected is_empty()" % first)
     # the ':' prefix is stripped: where the colon test holds, find_tz_file gets a tail of the string, not the string itself
-    n = 0
+    n = colon_rule = 0
     for p in Sym(P, fn).paths():
         def holds(c):
             v = c[2]
@@ -179,12 +179,16 @@ def r_dispatch(chk, P, tier):
         colon = [c for c in p.conds if ("('char', 58)" in repr(c[1]) or "':'" in repr(c[1])) and holds(c)]
         if not colon:
             continue
+        # ":name" names a file and nothing else: where the colon test holds the string is never read as a POSIX rule (a failed lookup is the answer)
+        if any(isinstance(c[1], str) and c[1].endswith("TransitionRule::from_tz_string") for c in p.calls):
+            colon_rule += 1
         for c in p.calls:
             if isinstance(c[1], str) and c[1].endswith("find_tz_file"):
                 n += 1
                 a = c[2][0]
                 whole = a == ("arg", 1) or unref(a) == ("arg", 1)
                 chk.expect(not whole, "colon branch #%d" % n, "with a leading ':' from_posix_tz hands the whole string (colon included) to find_tz_file", loc=P.loc(fn))
+    chk.expect(colon_rule == 0, "colon never a rule", "from_posix_tz parses a ':'-prefixed value as a POSIX TZ rule on %d paths (after the file lookup failed); expected the lookup's error" % colon_rule, loc=P.loc(fn))
     chk.expect(n >= 1, "colon branch found", "no path of from_posix_tz tests for ':' and then calls find_tz_file (anchor lost)")
     # "file if it exists, otherwise a TZ rule": the string is read as a POSIX rule only after the file lookup was tried for it - on every path
     rule_fn = "offset::local::tz_info::rule::TransitionRule::from_tz_string"
